@@ -56,7 +56,7 @@ class Profile:
         self.nC = 6
         self.nK = 3
         self.nF = 8            # functor ids
-        self.flavours = ["V", "I", "A", "TV", "TI", "TA"]
+        self.flavours = ["V", "I", "A", "TV", "TI", "TA", "AV", "TAV"]
         self.specs = {"fn": 6, "mem": 2, "trk": 2, "trk2": 1, "bref": 1, "nest": 1, "fwd": 1, "ownT": 1, "ownK": 1}
         self.body_prob = 0.3   # probability that a functor id has a body
         self.body_len = (1, 4)
@@ -108,7 +108,7 @@ class Gen:
         return self.r.below(n)
 
     def slot_type_for(self, fl):
-        return "V" if fl in ("V", "TV") else "I"
+        return "V" if fl in ("V", "TV", "AV", "TAV") else "I"
 
     def spec(self, want_void=None, level=None):
         kinds = [(k, w) for k, w in self.p.specs.items() if w > 0 and (self.owners or k not in ("ownT", "ownK"))]
@@ -132,7 +132,7 @@ class Gen:
             return "fn:%d" % fid
         if k == "fwd":
             cands = [g for g, fl in self.G.items()
-                     if (want_void is None or (fl in ("V", "TV")) == want_void) and (level is None or g < level)]
+                     if (want_void is None or (fl in ("V", "TV", "AV", "TAV")) == want_void) and (level is None or g < level)]
             if cands:
                 return "fwd:G%d" % self.r.choice(sorted(cands))
             return "fn:%d" % fid
@@ -238,12 +238,15 @@ class Gen:
                 self.C.add(k)
             fl = self.G.get(g, "I")
             return "%s C%d G%d %s" % (r.choice(["connfn", "connfn", "connffn"]), k, g,
-                                        self.spec(want_void=(fl in ("V", "TV")), level=g))
+                                        self.spec(want_void=(fl in ("V", "TV", "AV", "TAV")), level=g))
         if op in ("emit", "tryemit"):
             g = self.pick(self.G, p.nG, True)
             fl = self.G.get(g, "I")
             if fl in ("A", "TA") and r.chance(0.7):
                 return "%s G%d %d %s" % (op, g, r.below(10), r.choice(STRATS))
+            if fl in ("AV", "TAV") and r.chance(0.7):
+                # (no threshold strategies: a void accumulator sees no values)
+                return "%s G%d %d %s" % (op, g, r.below(10), r.choice([x for x in STRATS if not x.startswith("stop")]))
             return "%s G%d %d" % (op, g, r.below(10))
         if op == "throw":
             return "throw"
